@@ -22,8 +22,9 @@ import (
 
 // one height of a behaviour of MC_EvidenceNet
 type netStep struct {
-	Ev  []json.RawMessage `json:"ev"` // kind, round, type, observers
+	Ev  []json.RawMessage `json:"ev"` // kind, round, type, observers, offender
 	Rs  int               `json:"rs"`
+	Pv  int               `json:"pv"` // the Byzantine validator that plays the private precommit (kind 4)
 	E   json.RawMessage   `json:"e"`
 	Bl  []AEv             `json:"bl"` // evidence list of the Byzantine proposal (kind 5)
 	Br  [][2]string       `json:"br"` // per node: specified result of validating it, reason
@@ -343,13 +344,13 @@ func (r *netRun) height(hh uint64, st netStep) bool {
 				if !ok {
 					return r.fail("infra:e2e-lastcommit", "the last commit has no majority")
 				}
-				pc := &types.Vote{ValidatorAddress: n.W.Addr(e.A[0]), ValidatorIndex: r.f.indexOf(e.A[0], int(hh)-1), Height: hh - 1, Round: lc.GetRound(),
+				pc := &types.Vote{ValidatorAddress: n.W.Addr(st.Pv), ValidatorIndex: r.f.indexOf(st.Pv, int(hh)-1), Height: hh - 1, Round: lc.GetRound(),
 					Type: kproto.PrecommitType, BlockID: bid, Timestamp: n.W.TickTime(0)}
-				pc.Signature = n.W.SignVote(e.A[0], chainID, pc)
+				pc.Signature = n.W.SignVote(st.Pv, chainID, pc)
 				// (not if an earlier event already showed this observer precommits of Byz for that round: a third
 				// one would be another offence, which the specification's behaviour does not contain)
 				if lc.GetByIndex(pc.ValidatorIndex) == nil {
-					n.Inject(o, e.A[0], &consensus.VoteMessage{Vote: pc})
+					n.Inject(o, st.Pv, &consensus.VoteMessage{Vote: pc})
 				}
 			}
 			n.Inject(o, e.A[0], &consensus.VoteMessage{Vote: va.Copy()})
@@ -529,7 +530,7 @@ func TestNetReplay(t *testing.T) {
 		r := &netRun{f: f, net: net, res: res, exp: map[string]*types.DuplicateVoteEvidence{}, byHex: map[string]string{}, inBlk: map[string]uint64{},
 			rounds: map[string]uint32{}, wallclock: s.GenesisUnix != 0 && s.GenesisUnix < time.Now().Unix(),
 			detail: map[string]interface{}{"behaviour": script, "seed": mbt.Seed(),
-				"legend": "event = [kind 1 votes of the height being decided / 2 late precommits of the previous height / 3 the previous votes again, round, type, observers]"}}
+				"legend": "event = [kind 1 votes of the height being decided / 2 late precommits of the previous height / 3 the previous votes again / 4 like 1 after a private precommit / 5 Byzantine proposal (round = variant), round, type, observers, offender]"}}
 		res.Count(1)
 		res.Behaviour()
 		if events > 0 {
